@@ -11,7 +11,7 @@ PER_BATCH = {'quick': 600, 'thorough': 9000}
 FLOORS = {
     'quick': {'distinct_nontrivial': 1500, 'round-trips': 5000, 'grammars-in-class': 500, 'feature:filtered-token-reinserted': 3000,
               'feature:inlined-rule-matched': 800, 'feature:expand1-rule-matched': 800, 'feature:alias': 1000, 'feature:repetition': 1500,
-              'feature:bang-rule': 300, 'feature:parser:lalr': 2000, 'feature:parser:earley': 1000, 'template-class': 16, 'calc-corpus': 1, 'nested-corpus': 1},
+              'feature:bang-rule': 300, 'feature:parser:lalr': 2000, 'feature:parser:earley': 1000, 'template-class': 16, 'calc-corpus': 1, 'nested-corpus': 1, 'aliased-recursion-corpus': 1},
     'thorough-unused': {'distinct_nontrivial': 25000, 'round-trips': 80000, 'grammars-in-class': 8000},
 }
 RULE = ("cases = (grammar generated inside the supported class, parser in {lalr, earley}, accepted input): EBNF grammars with "
@@ -345,11 +345,26 @@ def _nested():
         'ignore': ['WS'], 'start': ['start'], 'alphabet': list('7x[]{},; ')}
 
 
+def _aliased_recursion():
+    """a rule with an alias (so other rules may refer to 'a node of start or al0') whose node can have a node of the same
+    rule as its only child, with filtered tokens next to it"""
+    L, r, a = gen.LIT, gen.rule, gen.alt
+    return {'rules': [
+        r('start', [a([['t', 'B']], 'al0'), a([['g', [a([['t', 'K']]), a([['r', '_i0']])]]])], mods='!'),
+        r('_i0', [a([['m', [a([['t', 'B'], ['t', 'K']])]], ['t', '_U'], ['r', 'start']]), a([['t', 'K'], ['t', '_U']])])],
+        'terms': [gen.term('K', ['s', 'k', 'i'], ex=['k', 'K']), gen.term('B', ['s', 'b', ''], ex=['b']), gen.term('_U', ['s', 'u', ''], ex=['u']),
+                  gen.term('WS', ['x', ' +', ''], ex=[' '])],
+        'ignore': ['WS'], 'start': ['start'], 'alphabet': list('kKbu ')}
+
+
 def run_batch(ctx):
     rng = ctx.rng
     from .c13 import RICH
     from .c08 import ws_variant
     run_grammar(ctx, TEMPLATE_G, rng, ['[a]', '[a, a] [a:b]', '[a,a,a][a:b,a:b]'])
+    if ctx.batch == 2:
+        run_grammar(ctx, _aliased_recursion(), rng, ['u K u', 'u k', 'u b', 'b K u b', 'u b K u u k', 'k', 'b'])
+        ctx.count('aliased-recursion-corpus')
     if ctx.batch == 1:
         run_grammar(ctx, _nested(), rng, ['[7]', '[[7, 42]]', '[7, [42, 7]]', '[[7], [42]]', '[[[7]]]', '{x;}', '{{x; f;}}', '{x; {f;}}', '{{{x;}}}', '[[7]] {{x;}}'])
         ctx.count('nested-corpus')
